@@ -20,6 +20,8 @@ pub enum Cmd {
     CreateUser { name: String },
     SetPermissions { name: String },
     Snapshot { reclaim: bool },
+    /// `debug force-election` on the node: the primary may change while operations are in flight
+    ForceElection,
 }
 
 #[derive(Clone, Debug, Serialize, Deserialize)]
@@ -50,6 +52,7 @@ pub fn cmd_strategy() -> impl Strategy<Value = Cmd> {
         1 => select(vec!["u1", "u2"]).prop_map(|s| Cmd::CreateUser { name: s.to_string() }),
         1 => select(vec!["u1", "u2"]).prop_map(|s| Cmd::SetPermissions { name: s.to_string() }),
         1 => any::<bool>().prop_map(|reclaim| Cmd::Snapshot { reclaim }),
+        1 => Just(Cmd::ForceElection),
     ]
 }
 
@@ -114,6 +117,7 @@ pub fn render(cmd: &Cmd, uniq: &str, cur_ver: i32) -> String {
         Cmd::CreateUser { name } => format!("create-user {} tok-{}", name, name),
         Cmd::SetPermissions { name } => format!("set-permissions {} rw *", name),
         Cmd::Snapshot { reclaim } => format!("snapshot {}", reclaim),
+        Cmd::ForceElection => "debug force-election".to_string(),
     }
 }
 
@@ -127,6 +131,7 @@ fn cmd_name(cmd: &Cmd) -> &'static str {
         Cmd::CreateUser { .. } => "create-user",
         Cmd::SetPermissions { .. } => "set-permissions",
         Cmd::Snapshot { .. } => "snapshot",
+        Cmd::ForceElection => "force-election",
     }
 }
 
@@ -193,7 +198,10 @@ pub fn run_case(ctx: &Ctx, case: &Case) -> Outcome {
         fail = Some((format!("C04|panic|{}", c.panics[0].chars().skip(3).take(50).collect::<String>()), format!("{:?}", c.panics)));
     }
     let mut known_hits: BTreeMap<String, u64> = BTreeMap::new();
-    if fail.is_none() {
+    // histories with a forced election are outside this property's premise (one primary throughout): what they write
+    // is not compared; only C15's end-to-end clause is judged for them (no operation is left pending at quiescence)
+    let with_election = case.steps.iter().any(|s| matches!(s.cmd, Cmd::ForceElection));
+    if fail.is_none() && !with_election {
         let primary = cluster_dump(&c, 0);
         'nodes: for i in 1..case.n {
             let d = cluster_dump(&c, i);
